@@ -54,7 +54,6 @@ ALLOWED_IN = {
 K_STALE = "stale-alias-key-after-ancestor-move"
 K_TOPLEVEL = "collection-insert-keeps-old-parent"
 K_CLOBBER = "detached-alias-backref-clobbers-registration"
-K_INNER = "inner-link-retarget-strands-outer-aliases"
 
 
 class Skip(Exception):
@@ -62,7 +61,7 @@ class Skip(Exception):
 
 
 class Node:
-    __slots__ = ("dead", "fp", "id", "kind", "members", "name", "parent")
+    __slots__ = ("attached", "dead", "fp", "id", "kind", "members", "name", "parent")
 
     def __init__(self, id_: int, kind: str, name: str, fp=None):
         self.id = id_
@@ -72,6 +71,7 @@ class Node:
         self.members: dict[str, Node] = {}
         self.parent: Node | None = None  # model container (None: detached root or the collection itself)
         self.dead = False  # consumed by a stub merge: never re-inserted
+        self.attached = -1  # (aliases) number of the step that last attached / re-targeted it
 
 
 class World:
@@ -94,8 +94,8 @@ class World:
         self.opdesc = ""  # coarse description of the current step (bucket key)
         self.opfull = ""
         self.moved_root: list[str] | None = None
-        self.retargeted: str | None = None
-        self.hijacked: list[str] = []  # path at which the current step re-inserted a detached subtree
+        self.stepno = 0
+        self.last_mutation = 0  # number of the last step that changed the tree or re-targeted an alias  # path at which the current step re-inserted a detached subtree
 
     # ------------------------------------------------------------------ model helpers
     def path_of(self, node: Node) -> list[str]:
@@ -251,8 +251,7 @@ class World:
         kind = op[0]
         self.opdesc = self.opfull = kind
         self.moved_root = None
-        self.retargeted = None  # path of the alias whose target the current step assigned explicitly
-        self.hijacked = []  # aliases re-targeted by set_member through a stale back-reference
+        self.stepno += 1
         try:
             if kind == "set":
                 fails = self._op_set(*op[1:])
@@ -359,7 +358,6 @@ class World:
                 if followers:
                     self.opfull += "+followers"
                 self._steer_clobber(old_real, real, followers)
-                self._steer_hijack(old_real)
                 if old.kind == "module" and old.fp:
                     merged = self._merge_plan(old, node, real)
             if any(self._targets_into(old)):
@@ -377,6 +375,14 @@ class World:
             call("op-raises", base_real.__setitem__, k, real, what=f"__setitem__({k!r}, {conc})")
 
         # ---- model update
+        self.last_mutation = self.stepno
+        if node.kind == "alias":
+            node.attached = self.stepno
+        if followers:
+            by_real = {id(self.real[a.id]): a for a in self.aliases_ever}
+            for fr in followers:
+                if id(fr) in by_real:
+                    by_real[id(fr)].attached = self.stepno
         if vkind == "limbo":
             self.limbo.remove(node)
         final = node
@@ -509,19 +515,6 @@ class World:
                 self.on_excluded(K_CLOBBER)
                 raise Skip("known:" + K_CLOBBER)
 
-    def _steer_hijack(self, old_real) -> None:
-        """set_member re-targets every alias listed in `old.aliases`, also stale entries of aliases that were re-targeted
-        elsewhere in the meantime.  When such an alias is an inner link of a chain, the outer aliases stay registered with
-        its previous final target (known finding K_INNER)."""
-        tree = {id(self.real[a.id]): a for a in self.tree_aliases()}
-        stale = [a for a in list(old_real.aliases.values()) if id(a) in tree and a.resolved and a.target is not old_real]
-        self.hijacked = [".".join(self.path_of(tree[id(a)])) for a in stale]
-        if K_INNER in self.known and any(
-            self.real[o.id].resolved and self.real[o.id].target is a for a in stale for o in self.tree_aliases()
-        ):
-            self.on_excluded(K_INNER)
-            raise Skip("known:" + K_INNER)
-
     def _expect_keyerror(self, api, base_real, k, real=None) -> list[Fail]:
         fn = {
             "set_member": lambda: base_real.set_member(k, real),
@@ -597,6 +590,7 @@ class World:
         else:
             call("op-raises", base_real.__delitem__, k, what=f"__delitem__({k!r})")
         self._detach(node)
+        self.last_mutation = self.stepno
         self.classes[f"del:{api}:{form}:{len(key)}"] += 1
         # ---- clause: deleted members are gone (every key form, both lookup APIs, from every ancestor)
         fails = []
@@ -632,13 +626,8 @@ class World:
         self.opdesc = how
         apath = ".".join(self.path_of(node))
         if how == "resolve_target" and ar.resolved:
-            # resolve_target() on a resolved alias looks the path up again: it is an explicit re-targeting
-            if K_INNER in self.known and any(
-                self.real[o.id].resolved and self.real[o.id].target is ar for o in self.tree_aliases() if o is not node
-            ):
-                self.on_excluded(K_INNER)
-                raise Skip("known:" + K_INNER)
-            self.retargeted = apath
+            # resolve_target() on a resolved alias looks the path up again: it can re-target the alias
+            node.attached = self.last_mutation = self.stepno
         self.trace.append(["resolve", apath, how, "-> " + ar.target_path])
         try:
             if how == "target":
@@ -672,15 +661,9 @@ class World:
                     raise Skip("retarget-not-an-object")
             treal = self.real[tnode.id]
             tpath = ".".join(self.path_of(tnode))
-            if K_INNER in self.known and any(
-                self.real[o.id].resolved and self.real[o.id].target is ar for o in self.tree_aliases() if o is not node
-            ):
-                # known finding: other aliases point at this alias; they stay registered with its old final target
-                self.on_excluded(K_INNER)
-                raise Skip("known:" + K_INNER)
-            self.retargeted = apath
             self.trace.append(["retarget", apath, "obj", tpath])
             call("op-raises", setattr, ar, "target", treal, what=f"alias.target = <{tpath}>")
+            node.attached = self.last_mutation = self.stepno
             self.classes["retarget:obj"] += 1
             if not (ar.resolved and ar.target is treal and ar.target_path == tpath):
                 return [Fail("retarget", "obj", f"alias {apath!r}: target assignment to {tpath!r} did not take (target_path={ar.target_path!r})")]
@@ -781,7 +764,7 @@ class World:
                     break
 
         # alias registry and self-target
-        n_direct = n_chain = n_open = 0
+        n_direct = n_chain = n_open = n_stale = 0
         for node, path in in_tree:
             if node.kind != "alias":
                 continue
@@ -804,6 +787,14 @@ class World:
                 if cur.is_alias:
                     n_open += 1
                     continue
+                if node.attached != self.last_mutation:
+                    # An outer alias is registered with the final target its chain has when it is attached or
+                    # re-targeted; nothing re-registers it when a link of the chain is re-targeted, moved, detached
+                    # or replaced afterwards.  The clause is asserted while the chain is as it was at that moment:
+                    # the alias was attached / re-targeted by the latest mutating step (links may have been *resolved*
+                    # since: that does not change where the chain ends).
+                    n_stale += 1
+                    continue
                 target = cur
                 n_chain += 1
             else:
@@ -819,7 +810,7 @@ class World:
                     f"resolved alias {own!r} -> {ar.target_path!r}" + (f" (alias chain ending at {target.path!r})" if chain else "")
                     + f": target.aliases[{own!r}] is {target.aliases.get(own)!r}; the alias is registered under {keys!r}",
                     alias=own, keys=keys, occupant_detached=occupant_detached, chain=chain,
-                    links=links if chain else None, retargeted=self.retargeted, hijacked=self.hijacked or None,
+                    links=links if chain else None,
                 )
         if n_direct:
             self.classes["registry-checked"] += n_direct
@@ -827,6 +818,8 @@ class World:
             self.classes["registry-checked:alias-chain"] += n_chain
         if n_open:
             self.classes["registry-skipped:chain-with-unresolved-link"] += n_open
+        if n_stale:
+            self.classes["registry-skipped:chain-mutated-after-attach"] += n_stale
         for node in self.aliases_ever:
             ar = self.real[node.id]
             if ar.resolved and ar.target is ar:
